@@ -240,8 +240,8 @@ def run(chk, facts):
         ok = len(wild) == 1 and "{0}" in wild[0] and "i" in wild[0] and 'String::from("@")' not in wild[0]
         chk.ob("R-C17-5", "unique-keys", ok, "statements that are neither functions nor variables get a key that is unique per statement" if ok else
                "statements other than definitions share one map key: all but the last are dropped from the class", loc_e)
-        sk = [n for n in walk(ec["body"]) if n.get("k") == "mcall" and n["m"] in ("sorted_by_key", "sorted_by", "sorted")]
-        ok = len(sk) == 1 and strip(strip(sk[0]["args"][0])["body"]).get("k") == "tuple"
+        sk = [n for n in walk(ec["body"]) if n.get("k") == "mcall" and n["m"] in ("sorted_by_key", "sorted_by", "sorted", "sort_by_key", "sort_by", "sort_by_cached_key")]
+        ok = len(sk) == 1 and bool(sk[0]["args"]) and strip(sk[0]["args"][0]).get("k") == "closure" and strip(strip(sk[0]["args"][0])["body"]).get("k") == "tuple"
         chk.ob("R-C17-5", "total-order", ok, "members are sorted by (position, original index)" if ok else "members are sorted by a key that is not total", loc_e)
     except AnchorError as e:
         chk.anchor_fail("R-C17-5", e)
